@@ -193,7 +193,9 @@ impl Resolver<'_, RouteSet, PrefixSet<Any>> for RpslEvaluator {
 
     #[tracing::instrument(skip(self), level = "debug")]
     fn resolve(&mut self, route_set: &RouteSet) -> Result<PrefixSet<Any>, Self::IError> {
-        self.with_connection(|this, conn| {
+        // The members of a route-set may carry a range operator (`192.0.2.0/24^25-26`,
+        // RFC 2622 section 5.2), so they are read as text ...
+        let members: Vec<String> = self.with_connection(|this, conn| {
             conn.pipeline()
                 // TODO: shouldn't need to clone here
                 .push(Query::RouteSetMembersRecursive(route_set.clone()))
@@ -201,11 +203,28 @@ impl Resolver<'_, RouteSet, PrefixSet<Any>> for RpslEvaluator {
                 .and_then(|pipeline| {
                     this.collect_results(
                         pipeline
-                            .responses::<'_, Prefix<Any>>()
+                            .responses::<'_, String>()
                             .map(|response| response.map(ResponseItem::into_content)),
                     )
                 })
-        })
+        })?;
+        // ... and interpreted as the literal prefix sets they are.
+        let mut set = PrefixSet::<Any>::default();
+        for member in members {
+            match format!("{{ {member} }}")
+                .parse::<MpFilterExpr>()
+                .map_err(Error::from)
+                .and_then(|expr| <Self as Evaluator>::evaluate(self, expr))
+            {
+                Ok(ranges) => set = set | ranges,
+                Err(err) => {
+                    if !self.sink_error(&err) {
+                        return Err(err);
+                    }
+                }
+            }
+        }
+        Ok(set)
     }
 }
 
